@@ -30,6 +30,7 @@ func runC12(r *Report, p *Program) {
 	c12R4(h)
 	gzipStreamRule(h, "R5")
 	c12R7(h)
+	c12R8(h)
 }
 
 // writes500: the instruction writes a 500 response (DefaultErrorFunc/WriteTextResponse/errorPage with constant 500).
